@@ -8,6 +8,7 @@ import (
 	"go/token"
 	"go/types"
 	"os"
+	"strings"
 
 	"golang.org/x/tools/go/ssa"
 	"symgo/sym"
@@ -804,7 +805,8 @@ func rangeIter(fr *frame, x value, t types.Type) iter {
 	switch x := x.(type) {
 	case *omap:
 		keys := x.keys()
-		if fr.i.ex != nil && fr.i.ex.mapOrderSymbolic && len(keys) > 1 {
+		if fr.i.ex != nil && fr.i.ex.mapOrderSymbolic && len(keys) > 1 &&
+			(fr.i.ex.mapOrderIn == "" || (fr.fn != nil && strings.Contains(fr.fn.String(), fr.i.ex.mapOrderIn))) {
 			keys = fr.i.ex.permute(fr, keys)
 		}
 		return &mapIter{m: x, keys: keys}
